@@ -200,6 +200,7 @@ func freePort() int {
 type binResult struct {
 	violations []string // "kind\x00text"
 	retry      bool     // environment trouble (port taken): run the case again
+	lateSignal bool     // a signal of the history arrived after the serve call had returned and ended the process
 	harness    string
 }
 
@@ -401,7 +402,12 @@ func runBinary(c binCase, dir string, certDER []byte, backendURL string) (res bi
 		res.retry = true
 		return
 	}
-	if waitErr != nil {
+	if waitErr != nil && strings.Contains(lg.String(), http.ErrServerClosed.Error()) && strings.Contains(waitErr.Error(), "signal:") {
+		// The serve call had returned the standard error (Run logs it) before a LATER signal of the history met a
+		// process that no longer catches signals (e.g. `defer stop()` of signal.NotifyContext runs when Run returns,
+		// before the process has exited). The statement ends at the return of the serve call: counted, not judged.
+		res.lateSignal = true
+	} else if waitErr != nil {
 		res.violate("abnormal-exit", "%v: the process ended with %v instead of returning from Run; log:\n%s", c, waitErr, lg.String())
 	} else if !strings.Contains(lg.String(), http.ErrServerClosed.Error()) {
 		if strings.Contains(lg.String(), "address already in use") {
@@ -455,6 +461,9 @@ func binarySignals(t *testing.T, rep *ev.Report, shard, of int) {
 			}
 		}
 		rep.Add("binary_signal_histories", 1)
+		if res.lateSignal {
+			rep.Add("binary_observed_outside_statement_signal_after_serve_returned", 1)
+		}
 		rep.Note("distinct_outcomes", fmt.Sprintf("binary/%s/%d", c.phase, len(res.violations)))
 		if res.harness != "" || res.retry {
 			rep.HarnessError("%v: %s (retry=%v)", c, res.harness, res.retry)
